@@ -266,6 +266,12 @@ def build_all(run, props_target, audit_file, allow=FLOCQ_AXIOMS):
     return os.path.join(bindir, "vp-cmp")
 
 
+def phase(run, name, t0):
+    import time
+    run.extra.setdefault("phase_seconds", {})[name] = round(time.time() - t0, 1)
+    return time.time()
+
+
 def model_eval(run, tag_, exprs, shard=None):
     if not run.extra.get("model_ok"):
         return [None] * len(exprs)
